@@ -276,7 +276,7 @@ variable {root levels : Nat}
 
 theorem Good.fresh {c : RC LC} (hb : c.base = root) (hl : c.levels = levels)
     (hin : c.inner = none) (hcur : c.cur = none) : Good es s lvl root levels c :=
-  ⟨hb, hl, by intro l h; rw [hin] at h; cases h, by intro b h; rw [hcur] at h; cases h⟩
+  ⟨hb, hl, (by intro l h; rw [hin] at h; cases h), (by intro b h; rw [hcur] at h; cases h)⟩
 
 theorem Good.withCur {c : RC LC} (h : Good es s lvl root levels c) {b : LC}
     (hb : ∀ e ∈ b.es, e ∈ es) : Good es s lvl root levels (RC.withCur c b) :=
@@ -292,45 +292,49 @@ def IdxOK (es : List Entry) (s : Store) (lvl : Nat → Nat) (root levels : Nat) 
   ∃ c' r, x = some (c', r) ∧ Good es s lvl root levels c' ∧ c'.cur = c.cur ∧
     ∀ e, r = some e → Pt es s lvl 0 (offOf e)
 
-theorem last_current_pt {l : List (Nat × LC)} (h : GoodT es s lvl l) {e : Entry}
-    (he : (match l.getLast? with
-      | some (_, b) => LC.ops.current b
-      | none => none) = some e) : Pt es s lvl 0 (offOf e) := by
-  cases hl : l.getLast? with
-  | none => rw [hl] at he; cases he
-  | some x =>
-    obtain ⟨o, b⟩ := x
-    rw [hl] at he
-    exact GoodR_head_last h hl e (current_mem he)
+theorem last_current_pt {l : List (Nat × LC)} (h : GoodT es s lvl l) {o : Nat} {b : LC}
+    (hl : l.getLast? = some (o, b)) {e : Entry} (he : LC.ops.current b = some e) :
+    Pt es s lvl 0 (offOf e) :=
+  GoodR_head_last h hl e (current_mem he)
 
 theorem iterIndex_ok (E : Env es s lvl root levels) (mov : Mov) {c : RC LC}
     (hc : Good es s lvl root levels c) :
     IdxOK es s lvl root levels c (RC.iterIndex LC.ops s.load mov c) := by
+  obtain ⟨base, lv, inner0, cur0, log0⟩ := c
+  obtain ⟨hb, hl, hi, hcu⟩ := hc
+  simp only at hb hl hi hcu
+  subst hb hl
   unfold RC.iterIndex
-  cases hin : c.inner with
+  cases inner0 with
   | some inner =>
-    obtain ⟨hlen, hg⟩ := hc.inner inner hin
+    obtain ⟨hlen, hg⟩ := hi inner rfl
     obtain ⟨inner', done, log', h1, h2, h3⟩ :=
-      iterLevels_ok E.lt mov inner root c.log (by rw [hlen]; exact E.root_pt) hg
-    simp only [hc.hbase, h1]
-    have hgood : Good es s lvl root levels { c with inner := some inner', log := log' } :=
-      ⟨hc.hbase, hc.hlevels, by
+      iterLevels_ok E.lt mov inner base log0 (by rw [hlen]; exact E.root_pt) hg
+    simp only [h1]
+    have hgood : Good es s lvl base lv
+        ({ base := base, levels := lv, inner := some inner', cur := cur0, log := log' } : RC LC) :=
+      ⟨rfl, rfl, (by
         intro l hl
         simp only [Option.some.injEq] at hl
-        subst hl; exact ⟨by rw [h2, hlen], h3⟩, hc.cur⟩
+        subst hl; exact ⟨by rw [h2, hlen], h3⟩), hcu⟩
     cases done with
     | true =>
       refine ⟨_, _, rfl, hgood, rfl, ?_⟩
       intro e he
-      exact last_current_pt h3 he
+      cases hl : inner'.getLast? with
+      | none => rw [hl] at he; cases he
+      | some x =>
+        obtain ⟨o, b⟩ := x
+        rw [hl] at he
+        exact last_current_pt h3 hl he
     | false =>
       refine ⟨_, _, rfl, hgood, rfl, ?_⟩
       intro e he; cases he
   | none =>
     obtain ⟨r, log', h1, h2⟩ :=
-      initialIndex_ok E.lt mov (levels + 1) root [] c.log E.root_pt trivial
-    simp only [hc.hbase, hc.hlevels, h1]
-    refine ⟨_, _, rfl, ⟨hc.hbase, hc.hlevels, ?_, hc.cur⟩, rfl, ?_⟩
+      initialIndex_ok E.lt mov (lv + 1) base [] log0 E.root_pt trivial
+    simp only [h1]
+    refine ⟨_, _, rfl, ⟨rfl, rfl, ?_, hcu⟩, rfl, ?_⟩
     · intro l hl
       simp only at hl
       obtain ⟨g1, g2⟩ := h2 l hl
@@ -338,150 +342,175 @@ theorem iterIndex_ok (E : Env es s lvl root levels) (mov : Mov) {c : RC LC}
     · intro e he
       cases r with
       | none => cases he
-      | some l => exact last_current_pt (h2 l rfl).2 he
+      | some l =>
+        simp only at he
+        cases hl : l.getLast? with
+        | none => rw [hl] at he; cases he
+        | some x =>
+          obtain ⟨o, b⟩ := x
+          rw [hl] at he
+          exact last_current_pt (h2 l rfl).2 hl he
 
 theorem recurIndex_ok (E : Env es s lvl root levels) (mov : Mov) {c : RC LC}
     (hc : Good es s lvl root levels c) :
     IdxOK es s lvl root levels c (RC.recurIndex LC.ops s.load true mov c) := by
-  -- second phase
-  have phase2 : ∀ c1 : RC LC, Good es s lvl root levels c1 → c1.cur = c.cur →
-      IdxOK es s lvl root levels c
-        (match c1.inner with
-          | none => some (c1, none)
-          | some inner =>
-            match RC.recurLevels LC.ops s.load true mov inner.reverse c1.log with
-            | none => none
-            | some (rev', r, log) =>
-              some (({ c1 with inner := some rev'.reverse, log := log } : RC LC), r)) := by
-    intro c1 h1 hcur
-    cases hin : c1.inner with
-    | none => exact ⟨c1, none, rfl, h1, hcur, by intro e he; cases he⟩
-    | some inner =>
-      obtain ⟨hlen, hg⟩ := h1.inner inner hin
-      obtain ⟨l', r, log', g1, g2, g3, g4⟩ :=
-        recurLevels_ok E.lt mov inner.reverse 0 c1.log ((GoodT_iff inner).1 hg)
-      simp only [g1]
-      refine ⟨_, _, rfl, ⟨h1.hbase, h1.hlevels, ?_, h1.cur⟩, hcur, g4⟩
-      intro l hl
-      simp only [Option.some.injEq] at hl
-      subst hl
-      exact ⟨by simp [g2, hlen], by rw [GoodT_iff, List.reverse_reverse]; exact g3⟩
-  unfold RC.recurIndex
-  cases hin : c.inner with
-  | some inner =>
-    have := phase2 c hc rfl
-    simp only [hin] at this ⊢
-    exact this
-  | none =>
-    obtain ⟨r, log', h1, h2⟩ :=
-      initialIndex_ok E.lt mov (levels + 1) root [] c.log E.root_pt trivial
-    simp only [hc.hbase, hc.hlevels, h1]
-    refine phase2 { c with inner := r, log := log' } ⟨hc.hbase, hc.hlevels, ?_, hc.cur⟩ rfl
+  obtain ⟨base, lv, inner0, cur0, log0⟩ := c
+  have hb : base = root := hc.hbase
+  have hl : lv = levels := hc.hlevels
+  subst hb hl
+  -- second phase, from a list of levels
+  have phase2 : ∀ (inner : List (Nat × LC)) (lg : List Nat), inner.length = lv + 1 →
+      GoodT es s lvl inner →
+      ∃ l' r log', RC.recurLevels LC.ops s.load true mov inner.reverse lg = some (l', r, log') ∧
+        Good es s lvl base lv
+          ({ base := base, levels := lv, inner := some l'.reverse, cur := cur0, log := log' } : RC LC) ∧
+        ∀ e, r = some e → Pt es s lvl 0 (offOf e) := by
+    intro inner lg hlen hg
+    obtain ⟨l', r, log', g1, g2, g3, g4⟩ :=
+      recurLevels_ok E.lt mov inner.reverse 0 lg ((GoodT_iff inner).1 hg)
+    refine ⟨l', r, log', g1, ⟨rfl, rfl, ?_, hc.cur⟩, g4⟩
     intro l hl
-    simp only at hl
-    obtain ⟨g1, g2⟩ := h2 l hl
-    exact ⟨by simpa using g1, g2⟩
+    simp only [Option.some.injEq] at hl
+    subst hl
+    exact ⟨by simp [g2, hlen], by rw [GoodT_iff, List.reverse_reverse]; exact g3⟩
+  cases inner0 with
+  | some inner =>
+    obtain ⟨hlen, hg⟩ := hc.inner inner rfl
+    obtain ⟨l', r, log', g1, g2, g3⟩ := phase2 inner log0 hlen hg
+    refine ⟨_, r, ?_, g2, rfl, g3⟩
+    simp only [RC.recurIndex, g1]
+  | none =>
+    obtain ⟨r0, log1, h1, h2⟩ :=
+      initialIndex_ok E.lt mov (lv + 1) base [] log0 E.root_pt trivial
+    cases r0 with
+    | none =>
+      refine ⟨({ base := base, levels := lv, inner := none, cur := cur0, log := log1 } : RC LC),
+        none, ?_, ⟨rfl, rfl, (by intro l hl; cases hl), hc.cur⟩, rfl, by intro e he; cases he⟩
+      simp only [RC.recurIndex, h1]
+    | some inner =>
+      obtain ⟨hlen, hg⟩ := h2 inner rfl
+      obtain ⟨l', r, log', g1, g2, g3⟩ := phase2 inner log1 (by simpa using hlen) hg
+      refine ⟨_, r, ?_, g2, rfl, g3⟩
+      simp only [RC.recurIndex, h1, g1]
+
+theorem enter_ok {c : RC LC} (hc : Good es s lvl root levels c) {e : Entry}
+    (he : Pt es s lvl 0 (offOf e)) :
+    ∃ c' b, RC.enter s.load c e = some (c', b) ∧ Good es s lvl root levels c' ∧
+      ∀ x ∈ b.es, x ∈ es := by
+  obtain ⟨fl, hfl, hsub⟩ := he.load_leaf
+  refine ⟨{ c with log := offOf e :: c.log }, LC.ofList fl, ?_,
+    ⟨hc.hbase, hc.hlevels, hc.inner, hc.cur⟩, hsub⟩
+  unfold RC.enter
+  simp only [load_eq hfl]
 
 /-! ### Public operations -/
 
 /-- Outcome of a public operation: no error, good state. -/
-def StepOK (es : List Entry) (s : Store) (lvl : Nat → Nat) (root levels : Nat)
+abbrev StepOK (es : List Entry) (s : Store) (lvl : Nat → Nat) (root levels : Nat)
     (x : RC LC × Res) : Prop :=
   x.2 ≠ .err ∧ Good es s lvl root levels x.1
 
-theorem enter_then_ok (f : LC → LC × Option Entry) (hf : ∀ b, (f b).1.es = b.es) {c : RC LC}
-    (hc : Good es s lvl root levels c) {e : Entry} (he : Pt es s lvl 0 (offOf e)) :
-    StepOK es s lvl root levels
-      (match RC.enter s.load c e with
-        | none => (c, .err)
-        | some (c, b) => let (b', r) := f b; (RC.withCur c b', .ok r)) := by
-  obtain ⟨fl, hfl, hsub⟩ := he.load_leaf
-  unfold RC.enter
-  simp only [load_eq hfl]
-  refine ⟨by simp, ?_⟩
-  have hg : Good es s lvl root levels { c with log := offOf e :: c.log } :=
-    ⟨hc.hbase, hc.hlevels, hc.inner, hc.cur⟩
-  exact hg.withCur (by rw [hf]; exact hsub)
+theorem mem_of_apply {mov : Mov} {b : LC} (hb : ∀ x ∈ b.es, x ∈ es) :
+    ∀ x ∈ (LC.ops.apply mov b).1.es, x ∈ es := by
+  rw [apply_es]; exact hb
+
+theorem Good.dropCur {c : RC LC} (h : Good es s lvl root levels c) :
+    Good es s lvl root levels { c with cur := none } :=
+  ⟨h.hbase, h.hlevels, h.inner, by intro b hb; cases hb⟩
 
 theorem first_ok (E : Env es s lvl root levels) {c : RC LC} (hc : Good es s lvl root levels c) :
     StepOK es s lvl root levels (c.first LC.ops s.load) := by
-  unfold RC.first
   obtain ⟨c', r, h1, h2, h3, h4⟩ := iterIndex_ok E .first hc
-  simp only [h1]
   cases r with
-  | none => exact ⟨by simp, h2.hbase, h2.hlevels, h2.inner, by intro b hb; cases hb⟩
-  | some e => exact enter_then_ok LC.ops.first (apply_es .first) h2 (h4 e rfl)
+  | none =>
+    simp only [RC.first, h1]
+    exact ⟨by simp, h2.dropCur⟩
+  | some e =>
+    obtain ⟨c'', b, g1, g2, g3⟩ := enter_ok h2 (h4 e rfl)
+    simp only [RC.first, h1, g1]
+    exact ⟨by simp, g2.withCur (mem_of_apply (mov := .first) g3)⟩
 
 theorem last_ok (E : Env es s lvl root levels) {c : RC LC} (hc : Good es s lvl root levels c) :
     StepOK es s lvl root levels (c.last LC.ops s.load) := by
-  unfold RC.last
   obtain ⟨c', r, h1, h2, h3, h4⟩ := iterIndex_ok E .last hc
-  simp only [h1]
   cases r with
-  | none => exact ⟨by simp, h2.hbase, h2.hlevels, h2.inner, by intro b hb; cases hb⟩
-  | some e => exact enter_then_ok LC.ops.last (apply_es .last) h2 (h4 e rfl)
+  | none =>
+    simp only [RC.last, h1]
+    exact ⟨by simp, h2.dropCur⟩
+  | some e =>
+    obtain ⟨c'', b, g1, g2, g3⟩ := enter_ok h2 (h4 e rfl)
+    simp only [RC.last, h1, g1]
+    exact ⟨by simp, g2.withCur (mem_of_apply (mov := .last) g3)⟩
 
 theorem ge_ok (E : Env es s lvl root levels) {c : RC LC} (hc : Good es s lvl root levels c)
     (q : Bytes) : StepOK es s lvl root levels (c.ge LC.ops s.load q) := by
-  unfold RC.ge
   obtain ⟨c', r, h1, h2, h3, h4⟩ := iterIndex_ok E (.ge q) hc
-  simp only [h1]
   cases r with
-  | none => exact ⟨by simp, h2⟩
+  | none =>
+    simp only [RC.ge, h1]
+    exact ⟨by simp, h2⟩
   | some e =>
-    exact enter_then_ok (fun b => LC.ops.ge b q) (apply_es (.ge q)) h2 (h4 e rfl)
-
-theorem rel_tail_ok (E : Env es s lvl root levels) (mov : Mov) (f : LC → LC × Option Entry)
-    (hf : ∀ b, (f b).1.es = b.es) {c : RC LC} (hc : Good es s lvl root levels c) :
-    StepOK es s lvl root levels
-      (match RC.recurIndex LC.ops s.load true mov c with
-        | none => (c, .err)
-        | some (c, some e) =>
-          match RC.enter s.load c e with
-          | none => (c, .err)
-          | some (c, nb) => let (nb', r) := f nb; (RC.withCur c nb', .ok r)
-        | some (c, none) => (c, .ok none)) := by
-  obtain ⟨c', r, h1, h2, h3, h4⟩ := recurIndex_ok E mov hc
-  simp only [h1]
-  cases r with
-  | none => exact ⟨by simp, h2⟩
-  | some e => exact enter_then_ok f hf h2 (h4 e rfl)
+    obtain ⟨c'', b, g1, g2, g3⟩ := enter_ok h2 (h4 e rfl)
+    simp only [RC.ge, h1, g1]
+    exact ⟨by simp, g2.withCur (mem_of_apply (mov := .ge q) g3)⟩
 
 theorem next_ok (E : Env es s lvl root levels) {c : RC LC} (hc : Good es s lvl root levels c) :
     StepOK es s lvl root levels (c.next LC.ops s.load true) := by
-  unfold RC.next
   cases hcur : c.cur with
-  | none => exact first_ok E hc
+  | none =>
+    have : c.next LC.ops s.load true = c.first LC.ops s.load := by
+      unfold RC.next; simp only [hcur]
+    rw [this]; exact first_ok E hc
   | some b =>
-    simp only
-    have hes := apply_es .next b
+    have hes := mem_of_apply (mov := .next) (hc.cur b hcur)
     rcases ha : LC.ops.next b with ⟨b', r⟩
     have ha' : LC.ops.apply .next b = (b', r) := ha
     rw [ha'] at hes
     simp only at hes
-    have hg : Good es s lvl root levels (RC.withCur c b') :=
-      hc.withCur (by rw [hes]; exact hc.cur b hcur)
+    have hg : Good es s lvl root levels (RC.withCur c b') := hc.withCur hes
     cases r with
-    | some e => exact ⟨by simp, hg⟩
-    | none => exact rel_tail_ok E .next LC.ops.first (apply_es .first) hg
+    | some e =>
+      simp only [RC.next, hcur, ha]
+      exact ⟨by simp, hg⟩
+    | none =>
+      obtain ⟨c', r', h1, h2, h3, h4⟩ := recurIndex_ok E .next hg
+      cases r' with
+      | none =>
+        simp only [RC.next, hcur, ha, h1]
+        exact ⟨by simp, h2⟩
+      | some e =>
+        obtain ⟨c'', nb, g1, g2, g3⟩ := enter_ok h2 (h4 e rfl)
+        simp only [RC.next, hcur, ha, h1, g1]
+        exact ⟨by simp, g2.withCur (mem_of_apply (mov := .first) g3)⟩
 
 theorem prev_ok (E : Env es s lvl root levels) {c : RC LC} (hc : Good es s lvl root levels c) :
     StepOK es s lvl root levels (c.prev LC.ops s.load true) := by
-  unfold RC.prev
   cases hcur : c.cur with
-  | none => exact last_ok E hc
+  | none =>
+    have : c.prev LC.ops s.load true = c.last LC.ops s.load := by
+      unfold RC.prev; simp only [hcur]
+    rw [this]; exact last_ok E hc
   | some b =>
-    simp only
-    have hes := apply_es .prev b
+    have hes := mem_of_apply (mov := .prev) (hc.cur b hcur)
     rcases ha : LC.ops.prev b with ⟨b', r⟩
     have ha' : LC.ops.apply .prev b = (b', r) := ha
     rw [ha'] at hes
     simp only at hes
-    have hg : Good es s lvl root levels (RC.withCur c b') :=
-      hc.withCur (by rw [hes]; exact hc.cur b hcur)
+    have hg : Good es s lvl root levels (RC.withCur c b') := hc.withCur hes
     cases r with
-    | some e => exact ⟨by simp, hg⟩
-    | none => exact rel_tail_ok E .prev LC.ops.last (apply_es .last) hg
+    | some e =>
+      simp only [RC.prev, hcur, ha]
+      exact ⟨by simp, hg⟩
+    | none =>
+      obtain ⟨c', r', h1, h2, h3, h4⟩ := recurIndex_ok E .prev hg
+      cases r' with
+      | none =>
+        simp only [RC.prev, hcur, ha, h1]
+        exact ⟨by simp, h2⟩
+      | some e =>
+        obtain ⟨c'', nb, g1, g2, g3⟩ := enter_ok h2 (h4 e rfl)
+        simp only [RC.prev, hcur, ha, h1, g1]
+        exact ⟨by simp, g2.withCur (mem_of_apply (mov := .last) g3)⟩
 
 theorem le_ok (E : Env es s lvl root levels) {c : RC LC} (hc : Good es s lvl root levels c)
     (q : Bytes) : StepOK es s lvl root levels (c.le LC.ops s.load true q) := by
